@@ -692,7 +692,7 @@ def cname_violation(z):
         types = [(int(r.rdtype), int(r.covers)) for r in node.rdatasets if len(r) > 0]
         if any(t == 5 for t, _ in types):
             for t, cov in types:
-                eff = cov if t in (46, 24) else t      # a signature is judged by what it covers
+                eff = cov if t == 46 else t      # an RRSIG is judged by what it covers; the legacy SIG (24) is other data
                 if eff not in _CNAME_COMPANIONS:
                     return name
     return None
@@ -1018,6 +1018,8 @@ def _eval_case(ctx: Ctx, c: dict):
             bad = cname_violation(za)
             if bad is not None:
                 ctx.fail("C09/read/cname-and-other-data", f"after loading, {bad} holds a CNAME and other data", rep)
+    elif k == "cnamegrid":
+        eval_cnamegrid_case(ctx, c, rep)
     elif k == "routes":
         eval_routes_case(ctx, c, rep)
     elif k == "directives":
@@ -1871,6 +1873,99 @@ def eval_rrsets_case(ctx, c, rep):
         ctx.fail("C09/rrsets/missing-ttl/accepted", f"read_rrsets without any TTL gave {how4}", rep)
 
 
+
+# ------------------------------------------------------------------------------------------------
+# node kinds over the full (rdtype, covers) grid
+# ------------------------------------------------------------------------------------------------
+def ref_kind(t: int, cov: int) -> str:
+    """the documented table, written out: CNAME and RRSIG(CNAME) are CNAME; NSEC (47), NSEC3 (50), KEY (25) and an RRSIG
+    covering one of them are neutral (RFC 4035 2.5, RFC 3007); everything else -- the legacy SIG (24) whatever it covers
+    included -- is other data (RFC 2181 10.1)"""
+    if t == 5 or (t == 46 and cov == 5):
+        return "CNAME"
+    if t in (47, 50, 25) or (t == 46 and cov in (47, 50, 25)):
+        return "NEUTRAL"
+    return "REGULAR"
+
+
+def ref_coexist(k1: str, k2: str) -> bool:
+    return {k1, k2} != {"CNAME", "REGULAR"}
+
+
+def eval_cnamegrid_case(ctx, c, rep):
+    """one (rdtype, covers) cell against a CNAME and against an ordinary record at the same owner: through the zone-file
+    reader (both orders, check_origin on/off, plain / versioned / B-tree zones), through the node API (most recent wins)
+    and, where they may coexist, through write -> read"""
+    import dns.versioned
+    import dns.btreezone
+    ty, cov, rd_text = c["ty"], c["covers"], c["rdata"]
+    T, C = int(dns.rdatatype.from_text(ty)), (0 if cov is None else int(dns.rdatatype.from_text(cov)))
+    O = dns.name.from_text("example.")
+    kind = ref_kind(T, C)
+    ctx.count("cnamegrid." + kind)
+    ctx.corr(f"c09.classify {T} {C}", dns.node.NodeKind.classify(dns.rdatatype.RdataType.make(T), dns.rdatatype.RdataType.make(C)).name, c)
+    apex = "@ 60 IN SOA ns1 hostmaster 1 2 3 4 5\n@ 60 IN NS ns1\n"
+    cell = f"x 60 IN {ty} {rd_text}\n"
+    partners = {"CNAME": "x 60 IN CNAME target\n", "REGULAR": "x 60 IN TXT \"other data\"\n", "NEUTRAL": "x 60 IN NSEC y A NSEC\n"}
+    factories = {"plain": dns.zone.Zone, "versioned": dns.versioned.Zone, "btree": dns.btreezone.Zone}
+    for pk, ptext in partners.items():
+        if ptext.split()[3] == ty:
+            continue
+        ok = ref_coexist(kind, pk)
+        for order, text in (("cell-first", apex + cell + ptext), ("partner-first", apex + ptext + cell)):
+            for fname, fac in factories.items():
+                for chk in (False, True):
+                    for rel in ((True, False) if fname == "plain" else (True,)):
+                        how, z = _outcome(lambda: dns.zone.from_text(text, origin=O, relativize=rel, check_origin=chk, zone_factory=fac))
+                        if ok and z is None:
+                            ctx.fail(f"C09/cnamegrid/{ty}-{cov}/with-{pk}/refused",
+                                     f"{how} ({fname}, {order}, check_origin={chk}): {ty} covering {cov} is {kind}, may share a node with {pk}: {text!r}", rep)
+                        elif not ok and (z is not None or how != "err CNAMEAndOtherData"):
+                            ctx.fail(f"C09/cnamegrid/{ty}-{cov}/with-{pk}/accepted",
+                                     f"{how} ({fname}, {order}, check_origin={chk}): {ty} covering {cov} is {kind}, must not share a node with {pk}: {text!r}", rep)
+                        elif ok and fname == "plain" and not chk:
+                            bad = cname_violation(z)
+                            if bad is not None:
+                                ctx.fail("C09/read/cname-and-other-data", f"after loading, {bad} holds a CNAME and other data: {text!r}", rep)
+                            # write -> read
+                            how2, t2 = _outcome(lambda: z.to_text(relativize=rel, want_origin=True))
+                            how3, z3 = _outcome(lambda: dns.zone.from_text(t2, origin=O, relativize=rel, check_origin=False)) if t2 else (how2, None)
+                            if z3 is None or not zones_equal(z, z3):
+                                ctx.fail(f"C09/cnamegrid/{ty}-{cov}/with-{pk}/roundtrip", f"{how2} / {how3}: {text!r} written as {t2!r}", rep)
+        # the node API: the most recent change wins, whatever the order
+        for order in ("cell-last", "partner-last"):
+            z = dns.zone.Zone(O, IN, relativize=True)
+            seq = [(ty, rd_text), tuple(ptext.split()[3:4] + [" ".join(ptext.split()[4:])])]
+            if order == "partner-last":
+                pass
+            else:
+                seq.reverse()
+            kinds = []
+            how = "ok"
+            try:
+                for t_, r_ in seq:
+                    rd = dns.rdata.from_text(IN, t_, r_, origin=O, relativize=True, relativize_to=O)
+                    z.find_rdataset("x", rd.rdtype, rd.covers(), create=True).add(rd, 60)
+                    kinds.append((int(rd.rdtype), int(rd.covers())))
+            except Stalled:
+                raise
+            except BaseException as e:  # noqa: BLE001
+                how = "err " + err_family(e)
+            node = z.nodes.get(dns.name.Name([b"x"]))
+            have = set() if node is None else {(int(r.rdtype), int(r.covers)) for r in node.rdatasets if len(r) > 0}
+            # literal expectation: adding CNAME-kind drops other data, adding other data drops CNAME-kind, neutral stays
+            exp = set()
+            for tc in kinds:
+                k = ref_kind(*tc)
+                if k == "CNAME":
+                    exp = {x for x in exp if ref_kind(*x) != "REGULAR"}
+                elif k == "REGULAR":
+                    exp = {x for x in exp if ref_kind(*x) != "CNAME"}
+                exp.add(tc)
+            if how != "ok" or have != exp:
+                ctx.fail(f"C09/cnamegrid/{ty}-{cov}/api-{order}-{pk}", f"{how}: node holds {sorted(have)}, expected {sorted(exp)} after adding {seq}", rep)
+
+
 def mutate_text(rng, text):
     """malformed stream: local damage to a well-formed zone text"""
     if not text:
@@ -2179,6 +2274,31 @@ def generate(ctx: Ctx, scale: int, rng, thorough=False):
         tb = pre + "\n".join(expand_generate(gl, base)) + "\n" + post
         c = {"kind": "spell", "what": "generate-straddles-zone-cut", "origin": hexl(origin), "rel": rel, "a": l1(ta).hex(), "b": l1(tb).hex()}
         ctx.case(("genstraddle", ta, rel), sample=c)
+        eval_case(ctx, c)
+
+    # --- node kinds: every known type (and TYPEnnn) with covers NONE, RRSIG and SIG with every interesting covered type,
+    # against a CNAME / other data / a neutral rdataset at the same owner
+    sig_tail = "8 2 60 20380119031407 20240101000000 1 example. AAAA"
+    grid = [(t, None) for t in ORACLE_TYPES if t not in ("RRSIG", "CNAME")] + [("KEY", None), ("CNAME", None), ("TYPE65281", None)]
+    for sg in ("RRSIG", "SIG"):
+        for cov in ["CNAME", "NSEC", "NSEC3", "KEY", "A", "MX", "TXT", "DNSKEY", "SOA", "NS", "DS", "DNAME", "RRSIG", "SIG", "TYPE65280"]:
+            grid.append((sg, cov))
+    step = 1 if thorough else 2
+    for gi, (ty, cov) in enumerate(grid):
+        if cov is None and gi % step != (ctx.seed if hasattr(ctx, "seed") else 0) % step and ty not in ("KEY", "NSEC", "NSEC3", "CNAME", "DNSKEY", "A"):
+            continue
+        if cov is not None:
+            rd_text = f"{cov} {sig_tail}"
+        elif ty == "KEY":
+            rd_text = "256 3 8 AQID"
+        elif ty == "TYPE65281":
+            rd_text = "\\# 2 abcd"
+        elif ty == "CNAME":
+            rd_text = "target"
+        else:
+            rd_text = gen_rdata_text(rng, ty, ORIGINS[0])
+        c = {"kind": "cnamegrid", "ty": ty, "covers": cov, "rdata": rd_text}
+        ctx.case(("cnamegrid", ty, cov), sample=c)
         eval_case(ctx, c)
 
     # --- entry points and routes
